@@ -478,7 +478,7 @@ fn cpu_seconds(pid: libc::pid_t) -> Option<f64> {
 }
 
 /// Wall-clock limit of the isolated confirmation run of a suspected hang.
-pub const CONFIRM_DEADLINE: Duration = Duration::from_secs(6);
+pub const CONFIRM_DEADLINE: Duration = Duration::from_secs(5);
 /// A case that is blocked (no CPU use) is given up after this long.
 const BLOCKED_DEADLINE: Duration = Duration::from_secs(60);
 
